@@ -243,6 +243,9 @@ class Checker:
                 self.paths.append(str(self.root / base))
             return
 
+        if os.path.isfile(self.root):
+            # a v2 single file torrent need not carry a length key
+            self.root = self.root.parent
         self.walk_file_tree(self.info["file tree"], [])
 
     def walk_file_tree(self, tree: dict, partials: list):
